@@ -57,6 +57,10 @@ static void viol(const char *rule, const char *fmt, ...)
     vprintf(fmt, ap);
     va_end(ap);
     printf("\n");
+#ifdef H_ADDR_FUZZ
+    fflush(stdout);
+    abort();   /* libFuzzer keeps the input as a crash artifact */
+#endif
 }
 
 static const char *hex128(const irc_inaddr *a)
@@ -611,6 +615,30 @@ static void pton_mutate(unsigned long count)
     }
 }
 
+#ifdef H_ADDR_FUZZ
+/* libFuzzer entry (thorough tier of C12/C13): the same oracle as pton-strings, on coverage-guided inputs */
+int LLVMFuzzerTestOneInput(const unsigned char *data, size_t size)
+{
+    static int init;
+    char buf[128];
+    size_t len;
+    if (!init) {
+        init = 1;
+        setvbuf(stdout, NULL, _IOLBF, 0);
+        my_ctype_init();
+        also_ntop = 1;
+        rng_state = 0x9E3779B97F4A7C15ull;
+    }
+    if (size >= sizeof(buf))
+        size = sizeof(buf) - 1;
+    memcpy(buf, data, size);
+    buf[size] = '\0';
+    len = strlen(buf);
+    check_string(buf, len);
+    return 0;
+}
+#define main h_addr_main
+#endif
 int main(int argc, char *argv[])
 {
     setvbuf(stdout, NULL, _IOLBF, 0);
